@@ -90,6 +90,17 @@ class C04(TraceCheck):
                                         {"k": "assign", "r0": r0, "r1": r1, "c0": c0, "c1": c1, "block": b,
                                          "bk": "fsarray" if (r0 + c1 + len(b)) % 4 == 0 else "list", "form": "slice2"},
                                         {"k": "read", "r0": 0, "r1": h + 3, "c0": 0, "c1": w}]}
+        # neighbouring rows with the same terminal string but different cells (a red 'a' next to a row whose TEXT is the
+        # escape-coded rendering of a red 'a'), filled / cleared with [row] * n (one block row object used for both)
+        red_a = {"k": "f", "v": [[[97], [2, 0, 0, 0, 0, 0, 0, 0]]]}
+        raw_a = {"k": "f", "v": [[[27, 91, 51, 49, 109, 97, 27, 91, 51, 57, 109], [0] * 8]]}
+        for order in ((red_a, raw_a), (raw_a, red_a), (red_a, red_a)):
+            for (c0, c1, txt) in ((5, 6, "x"), (0, 1, "y"), (11, 12, "z"), (2, 4, "uv")):
+                yield {"h": 2, "w": 14, "fmt": 0, "steps": [
+                    {"k": "assign", "r0": 0, "r1": 1, "c0": 0, "c1": 14, "block": [order[0]], "bk": "list", "form": "slice2"},
+                    {"k": "assign", "r0": 1, "r1": 2, "c0": 0, "c1": 14, "block": [order[1]], "bk": "list", "form": "slice2"},
+                    {"k": "assign", "r0": 0, "r1": 2, "c0": c0, "c1": c1, "block": [srow(txt), srow(txt)], "bk": "list", "form": "slice2", "sameobj": 1},
+                    {"k": "read", "r0": 0, "r1": 2, "c0": 0, "c1": 14}]}
         # regions far below the last row (row numbers beyond 2^15 and 2^16): the array grows to them
         for (r0, c0) in ((40000, 1), (70000, 0)):
             yield {"h": 2, "w": 3, "fmt": 0, "steps": [
@@ -181,6 +192,11 @@ class C04(TraceCheck):
             rec["exc"] = ""
             if st["k"] == "assign":
                 block = [enc.build_value(b) for b in st["block"]]
+                if st.get("sameobj"):
+                    # [row] * n: equal block rows are one and the same object
+                    for j in range(1, len(block)):
+                        if st["block"][j] == st["block"][j - 1]:
+                            block[j] = block[j - 1]
                 if st.get("bk") == "fsarray":
                     try:
                         block = fsarray(block)
